@@ -111,7 +111,7 @@ class Extractor:
     def run(self):
         out = self.out
         out.add('#![allow(unused_imports, unused_variables, unused_mut, dead_code, unused_assignments, non_snake_case, unreachable_patterns, unused_parens, non_camel_case_types)]\n#![feature(allocator_api)]\n#![verifier::allow(autoderive_clone_without_spec)]\n', ('gen', 'header'))
-        out.add('use vstd::prelude::*;\nuse vstd::std_specs::cmp::OrdSpec;\nuse std::collections::HashMap;\nuse std::convert::TryFrom;\nuse std::convert::TryInto;\nuse std::num::TryFromIntError;\nuse std::borrow::Cow;\n', ('gen', 'header'))
+        out.add('use vstd::prelude::*;\nuse vstd::std_specs::cmp::OrdSpec;\nuse std::collections::HashMap;\nuse std::convert::TryFrom;\nuse std::convert::TryInto;\nuse std::num::TryFromIntError;\nuse std::borrow::Cow;\nuse vstd::string::StringSliceAdditionalSpecFns;\n', ('gen', 'header'))
         out.add('verus! {\n', ('gen', 'header'))
         for d, tag in ((self.prelude_dir, 'prelude'), (self.spec_dir, 'spec')):
             for f in sorted(os.listdir(d)):
@@ -886,6 +886,14 @@ class Extractor:
                     # drop path-strip edits inside the replaced header
                     edits_drop = (toks[kw + 1].start, toks[bo].start)
                     ctx.setdefault('_drop_ranges', []).append(edits_drop)
+                elif len(txts) >= 4 and txts[0] == '&' and hdr[1].kind == 'ident' and txts[2] == 'in':
+                    # R12: `for &x in E`  ->  `for x__r in E { let x = *x__r;`   (reference pattern moved into a let)
+                    x_name = txts[1]
+                    edits.append(Edit(hdr[0].start, hdr[1].end, '%s__r' % x_name, ('gen', 'R12')))
+                    let_inj = ' let %s = *%s__r;' % (x_name, x_name)
+                    if iter_name:
+                        edits.append(Edit(hdr[2].end, hdr[2].end, ' %s:' % iter_name, ('gen', 'R9')))
+                    self.log_rule('R12', relfile, kwtok.line, 'reference pattern in for-loop header moved into a let in ' + path)
                 elif iter_name:
                     # R9: ghost iterator name
                     kin = next(j for j in range(kw + 1, bo) if toks[j].text == 'in')
